@@ -48,7 +48,7 @@ type knownBlock struct {
 	kind   string // "correct", "byz-valid", "byz-invalid:<rule>"
 }
 
-var byzStrategies = []string{"silent", "echo", "nil-voter", "equivocate", "split", "invalid-proposer", "withhold"}
+var byzStrategies = []string{"silent", "echo", "nil-voter", "equivocate", "split", "invalid-proposer", "withhold", "tx-mixer"}
 
 func (s *Sim) setupByz() {
 	for _, id := range s.cfg.ByzIdx {
@@ -105,6 +105,11 @@ func (s *Sim) learnAll() {
 				continue
 			}
 			s.registerBlock(sb.Block, sb.Block.MakePartSet(types.BlockPartSizeBytes), false, "correct")
+		}
+		for _, sb := range saved[s.learnedSaved[n.ID]:] {
+			if sb.Block.NumTxs() > 0 {
+				s.noteContracts(sb.Block, n)
+			}
 		}
 		s.learnedSaved[n.ID] = len(saved)
 	}
@@ -220,7 +225,7 @@ func (s *Sim) byzAct(b *Byz, target *kit.Node, rs *cstypes.RoundState) {
 			switch b.Strat {
 			case "nil-voter":
 				ch = 0
-			case "echo", "withhold", "invalid-proposer":
+			case "echo", "withhold", "invalid-proposer", "tx-mixer":
 				// vote for what the target itself holds as proposal (nil if none)
 				ch = 0
 				if rs.ProposalBlock != nil {
@@ -456,7 +461,14 @@ func (s *Sim) craftBlock(b *Byz, target *kit.Node, rs *cstypes.RoundState, st cs
 	case "unknown-proposer":
 		hdr.ProposerAddress = common.BytesToAddress([]byte("nobody"))
 	}
-	blk := types.NewBlock(hdr, nil, cm, nil, trie.NewStackTrie(nil))
+	var txs []*types.Transaction
+	if b.Strat == "tx-mixer" && rule == "" {
+		if s.tape.Chance(1, 2) {
+			hdr.GasLimit = uint64(50000 + s.tape.Draw(6)*30000) // tight block gas limit
+		}
+		txs = s.byzTxMix(target, h, hdr.GasLimit)
+	}
+	blk := types.NewBlock(hdr, txs, cm, nil, trie.NewStackTrie(nil))
 	switch rule {
 	case "num-txs":
 		hh := blk.Header()
